@@ -63,6 +63,8 @@ uninterp spec fn word_back(s: Seq<char>, c: int) -> int;
 uninterp spec fn word_next(s: Seq<char>, c: int) -> int;
 spec fn is_control(ch: char) -> bool { ch as u32 <= 0x1f || ch as u32 == 0x7f }
 
+/// what read_line does before the first key: an empty new line, cursor 0
+spec fn fresh_line(e: Ed) -> Ed { Ed { line: Seq::empty(), cur: 0, ..e } }
 /// one key of the reference editor: (state after, submitted?)
 spec fn key_spec(e: Ed, k: Key) -> (Ed, bool) {
     match k {
@@ -100,22 +102,22 @@ fn verif_char_count(s: &str) -> (r: usize) ensures r == s@.len() { s.chars().cou
 #[verifier::external_body]
 fn verif_blank(s: &String) -> (r: bool) ensures r == blank(s@) { s.trim().is_empty() }
 
-//@fn src/debugger/command/reader/terminal.rs - count_chars_bytes ret=r props=C20 ext
+//@fn src/debugger/command/reader/terminal.rs - count_chars_bytes ret=r props=C20 ext nobody
 //@end
-//@fn src/debugger/command/reader/terminal.rs - insert_char_index props=C20 ext
+//@fn src/debugger/command/reader/terminal.rs - insert_char_index props=C20 ext nobody
     requires char_index <= old(string)@.len(),
     ensures final(string)@ == old(string)@.insert(char_index as int, ch),
             final(string)@.len() <= usize::MAX,   // a String never holds more than isize::MAX bytes, hence characters
 //@end
-//@fn src/debugger/command/reader/terminal.rs - remove_char_index ret=r props=C20 ext
+//@fn src/debugger/command/reader/terminal.rs - remove_char_index ret=r props=C20 ext nobody
     requires char_index < old(string)@.len(),
     ensures final(string)@ == old(string)@.remove(char_index as int), r == old(string)@[char_index as int],
 //@end
-//@fn src/debugger/command/reader/terminal.rs - find_word_back ret=r props=C20 ext
+//@fn src/debugger/command/reader/terminal.rs - find_word_back ret=r props=C20 ext nobody
     requires cursor <= string@.len(),
     ensures r == word_back(string@, cursor as int), r <= string@.len(),
 //@end
-//@fn src/debugger/command/reader/terminal.rs - find_word_next ret=r props=C20 ext
+//@fn src/debugger/command/reader/terminal.rs - find_word_next ret=r props=C20 ext nobody
     requires cursor <= string@.len(),
     ensures r == word_next(string@, cursor as int), r <= string@.len(),
 //@end
@@ -137,6 +139,15 @@ impl Terminal {
         requires self.history.index <= self.history.list.len(),
         ensures r@ == ed_current(self.ed()),
 //@end
+
+    /// stand-in for `if last != buffer { self.history.push(self.buffer.clone()) }` (history file I/O + String comparison):
+    /// only the history list may grow, by the submitted line
+    #[verifier::external_body]
+    fn verif_push_if_new(&mut self)
+        ensures final(self).buffer == old(self).buffer, final(self).cursor == old(self).cursor, final(self).visible_cursor == old(self).visible_cursor,
+                final(self).history.index == old(self).history.index,
+                final(self).history.list@ == old(self).history.list@ || final(self).history.list@ == old(self).history.list@.push(old(self).buffer),
+    { unimplemented!() }
 
     /// drawing only: writes to stderr, the editor state is not touched (assumed; body is crossterm macros)
     #[verifier::external_body]
@@ -170,9 +181,41 @@ impl Terminal {
             final(self).cursor == old(self).cursor,
 //@end
 
+//@fn src/debugger/command/reader/terminal.rs "impl Terminal" read_line props=C20
+//@sub <<<self.buffer.trim().is_empty()>>> ==> <<<verif_blank(&self.buffer)>>>
+//@sub <<<self.read_line_raw();>>> ==> <<<let ghost start = self.ed();
+        self.read_line_raw();
+        proof {
+            let ks = choose|ks: Seq<Key>| run_keys(start, ks) == (self.ed(), true);
+            lemma_submitted_nonblank(start, ks);
+            assert(start.line =~= Seq::<char>::empty());
+            assert(start == fresh_line(old(self).ed()));
+            assert(run_keys(fresh_line(old(self).ed()), ks).1 && self.buffer@ == run_keys(fresh_line(old(self).ed()), ks).0.line);
+        }>>>
+//@sub <<<if self
+            .history
+            .list
+            .last()
+            .is_none_or(|previous| previous != &self.buffer)
+        {
+            self.history.push(self.buffer.clone());
+        }>>> ==> <<<self.verif_push_if_new();>>>
+        // between lines the editor rests on the new line: this is what Terminal::new establishes and what read_line re-establishes
+        requires old(self).history.index == old(self).history.list.len(),
+                 // ASSUMED about the history file: no blank entries (read_line itself only ever pushes non-blank lines)
+                 forall|i: int| 0 <= i < old(self).history.list@.len() ==> !blank(#[trigger] old(self).history.list@[i]@),
+        ensures
+            final(self).history.index == final(self).history.list.len(),
+            // the line handed to the command splitter is what the reference editor, started on an empty line with the same
+            // history, holds when it submits — for the keys actually read, however many
+            exists|ks: Seq<Key>| #[trigger] run_keys(fresh_line(old(self).ed()), ks).1
+                && final(self).buffer@ == run_keys(fresh_line(old(self).ed()), ks).0.line,
+            final(self).cursor == old(self).cursor,
+//@end
+
 //@fn src/debugger/command/reader/terminal.rs "impl Terminal" handle_key ret=r props=C20
 //@sub <<<self.buffer.trim().is_empty()>>> ==> <<<verif_blank(&self.buffer)>>>
-//@suball <<<self.get_current().chars().count()>>> ==> <<<verif_char_count(self.get_current())>>>
+//@subany <<<self.get_current().chars().count()>>> ==> <<<verif_char_count(self.get_current())>>>
         requires ed_wf(old(self).ed()),
         ensures
             ed_wf(final(self).ed()),
@@ -215,6 +258,18 @@ proof fn lemma_run_keys_push(e: Ed, ks: Seq<Key>, k: Key)
         assert(run_keys(e, ks) == run_keys(e1, tail));
         lemma_run_keys_push(e1, tail, k);
         assert(run_keys(e, kp) == run_keys(e1, tail.push(k)));
+    }
+}
+/// what the reference editor submits is never blank, as long as no history entry is
+proof fn lemma_submitted_nonblank(e: Ed, ks: Seq<Key>)
+    requires 0 <= e.idx <= e.hist.len(), forall|i: int| 0 <= i < e.hist.len() ==> !blank(#[trigger] e.hist[i]),
+    ensures run_keys(e, ks).1 ==> !blank(run_keys(e, ks).0.line),
+    decreases ks.len(),
+{
+    if ks.len() > 0 {
+        let (e1, done) = key_spec(e, ks[0]);
+        assert(e1.hist == e.hist && 0 <= e1.idx <= e1.hist.len());
+        if !done { lemma_submitted_nonblank(e1, ks.subrange(1, ks.len() as int)); }
     }
 }
 /// the reference editor itself keeps the property's invariant, given the assumed range of the word motions
